@@ -263,6 +263,13 @@ var properties = map[string]*Property{
 			Quick:      Tier{Runs: 1000, BudgetS: 100},
 			Thorough:   Tier{Runs: 40000, BudgetS: 900},
 		}, {
+			Name: "provider-fs-conc", Property: "C19", Pkg: "./internal/rules/provider/filesystem", Test: "TestVerifFSConc",
+			Dirs:       []string{"internal/rules/provider/filesystem"},
+			Files:      []string{"zz_verif_c18_test.go", "zz_verif_fsconc_test.go"},
+			Instrument: []string{"internal/rules/provider/filesystem/provider.go:yields"},
+			Quick:      Tier{Runs: 4000, BudgetS: 60},
+			Thorough:   Tier{Runs: 200000, BudgetS: 600},
+		}, {
 			Name: "robust-sim", Property: "C19", Pkg: "./internal/verifsim/pipesim", Test: "TestVerifRobust",
 			Dirs:       append([]string{"internal/verifsim/pipesim"}, exportDirs...),
 			Files:      []string{"zz_verif_pipe_test.go", "zz_verif_robust_test.go"},
